@@ -93,7 +93,8 @@ def run(ctx):
     ra = rearm[0]
     atoms = q.controlling_atoms(op, ra)
     res_ok = any(pol and a.strip(casts=True).k == 'DeclRefExpr' and any(kind == 'init' and val is not None and cb in list(val.walk())
-                 for (dn, kind, val) in q.local_defs(op, a.strip(casts=True).declid)) for a, pol in atoms)
+                 for (dn, kind, val) in q.local_defs(op, a.strip(casts=True).declid)) for a, pol in atoms) or \
+        any(pol and a.strip(casts=True) == cb for a, pol in atoms)          # the callback's result tested directly, without a named local
     rep_ok = any(pol and a.strip(casts=True).k == 'MemberExpr' and a.strip(casts=True).decl.get('qp') == 'FIX8::TimerEvent::_repeat' for a, pol in atoms)
     ctx.check(res_ok and rep_ok, 'R31.3', T + 'operator()#rearm.guard', ra.loc, 're-armed only when the callback returned true and the event repeats')
     rhs = ra.args[-1] if ra.args else ra.children[1]
